@@ -202,7 +202,7 @@ def retrieval_diffs(path, model, u, mode):
             got = {d['type']: (d.get('unit'), d.get('description')) for d in o.value}
             if got != getattr(model, attr) or len(o.value) != len(got):
                 out.append((f'{fam}_property_types_from_db-content', f'{got} vs model {getattr(model, attr)}'))
-    stored = {u[k].iso_id: k for k in ('i1', 'i2', 'i3')}
+    stored = {u[k].iso_id: k for k in u if k[0] == 'i' and hasattr(u[k], 'iso_id')}
     crits = [None, {'material': 'matB'}, {'adsorbate': 'gasA'}, {'material': 'matB', 'adsorbate': 'gasB'}, {'material': 'nope'}]
     for crit in crits:
         o = core.call(q.isotherms_from_db, criteria=crit, db_path=path, verbose=False)
@@ -256,7 +256,9 @@ def canon_of(model):
     return model.canon()
 
 
-def expand_factory(parent_dir, modes):
+def expand_factory(parent_dir, modes, oplist=None, universe=None):
+    universe = universe or globals()['universe']
+
     def expand(snap):
         path, model = snap
         out = {'succ': [], 'transitions': 0, 'viol': [], 'outcomes': collections.Counter()}
@@ -272,7 +274,7 @@ def expand_factory(parent_dir, modes):
             out['viol'].append(core.make_violation(sig, f'{label} [{mode} session]: {what}',
                                                    {'op': label, 'session_mode': mode}, exp, obs))
 
-        for label, fn, mfn in ops():
+        for label, fn, mfn in (oplist if oplist is not None else ops()):
             results = {}
             for mode in modes:
                 for ext in ('', '-journal', '-wal', '-shm'):
@@ -323,6 +325,80 @@ def expand_factory(parent_dir, modes):
 
 def canon(snap):
     return snap[1].canon()
+
+
+# ---------------------------------------------------------------------------
+# keys that resemble one another: the store is keyed by the EXACT name
+
+def universe_keys(mode):
+    """The shared universe plus items whose names collide with other names under case folding or with an alias."""
+    import pygaps
+    from pygaps.core.baseisotherm import BaseIsotherm
+    u = universe(mode)
+    u['aU'] = pygaps.Adsorbate('GASA', formula='U_{2}')                 # differs from 'gasA' in capitalisation only
+    u['aAl'] = pygaps.Adsorbate('ga', molar_mass=3.25)                  # named like an ALIAS of 'gasA'
+    u['mU'] = pygaps.Material('MATA', density=7.5)
+    u['mL'] = pygaps.Material('mata', comment='lower')
+    if mode == 'registered':
+        pygaps.ADSORBATE_LIST.extend([u['aU'], u['aAl']])
+        pygaps.MATERIAL_LIST.extend([u['mU'], u['mL']])
+    # (an isotherm's adsorbate NAME is resolved through the session's aliases, case-insensitively, by design: the isotherms here
+    #  refer to resembling MATERIAL names only, which are exact keys)
+    u['iU'] = BaseIsotherm(material={'name': 'MATA', 'density': 7.5}, adsorbate='gasB', temperature=300.0, note='upper', **rs.UNITS)
+    u['iAl'] = BaseIsotherm(material={'name': 'mata', 'comment': 'lower'}, adsorbate='gasB', temperature=301.0, note='lower', **rs.UNITS)
+    u['_own_mat_rows'].update({k: rs.mat_rows(u[k].material) for k in ('iU', 'iAl')})
+    return u
+
+
+def _ops_keys():
+    from pygaps.parsing import sqlite as q
+    out = []
+    for k in ('a1', 'aU', 'aAl'):
+        for ow in (False, True):
+            out.append((f'adsorbate_to_db({k}, overwrite={ow})',
+                        lambda u, p, k=k, ow=ow: q.adsorbate_to_db(u[k], db_path=p, overwrite=ow, verbose=False),
+                        lambda s, u, k=k, ow=ow: s.adsorbate_to(u[k].name, rs.ads_rows(u[k]), ow, True)))
+        out.append((f'adsorbate_delete_db({k} object)', lambda u, p, k=k: q.adsorbate_delete_db(u[k], db_path=p, verbose=False),
+                    lambda s, u, k=k: s.adsorbate_delete(u[k].name)))
+        out.append((f'adsorbate_delete_db({k} by name)', lambda u, p, k=k: q.adsorbate_delete_db(u[k].name, db_path=p, verbose=False),
+                    lambda s, u, k=k: s.adsorbate_delete(u[k].name)))
+    for k in ('m1', 'mU', 'mL'):
+        for ow in (False, True):
+            out.append((f'material_to_db({k}, overwrite={ow})',
+                        lambda u, p, k=k, ow=ow: q.material_to_db(u[k], db_path=p, overwrite=ow, verbose=False),
+                        lambda s, u, k=k, ow=ow: s.material_to(u[k].name, rs.mat_rows(u[k]), ow, True)))
+        out.append((f'material_delete_db({k} object)', lambda u, p, k=k: q.material_delete_db(u[k], db_path=p, verbose=False),
+                    lambda s, u, k=k: s.material_delete(u[k].name)))
+        out.append((f'material_delete_db({k} by name)', lambda u, p, k=k: q.material_delete_db(u[k].name, db_path=p, verbose=False),
+                    lambda s, u, k=k: s.material_delete(u[k].name)))
+    for k in ('i1', 'iU', 'iAl'):
+        for auto in (True, False):
+            out.append((f'isotherm_to_db({k}, autoinsert_material={auto}, autoinsert_adsorbate={auto})',
+                        lambda u, p, k=k, auto=auto: q.isotherm_to_db(u[k], db_path=p, autoinsert_material=auto,
+                                                                      autoinsert_adsorbate=auto, verbose=False),
+                        lambda s, u, k=k, auto=auto: s.isotherm_to(u[k].iso_id, rs.iso_record(u[k]), rs.mat_rows(u[k].material),
+                                                                    rs.ads_rows(u[k].adsorbate), auto, auto)))
+        out.append((f'isotherm_delete_db({k} object)', lambda u, p, k=k: q.isotherm_delete_db(u[k], db_path=p, verbose=False),
+                    lambda s, u, k=k: s.isotherm_delete(u[k].iso_id)))
+    return out
+
+
+def check_keys(ctx, tpl):
+    """BFS over histories of operations on keys that collide under case folding or with an alias of another item."""
+    d = os.path.join(state_dir(), 'keys')
+    os.makedirs(d, exist_ok=True)
+    md = 3 if ctx.quick else 4
+    oplist = _ops_keys()
+    res = engine_states.explore([(tpl, rs.Store())], expand_factory(d, ['fresh', 'registered'], oplist, universe_keys), canon, max_depth=md)
+    for v in res.violations:
+        v['sig'] = dict(v['sig'], part='resembling-keys')
+    ctx.violate(res.violations)
+    ok = sum(n for (a, b), n in res.outcomes.items() if b == 'ok')
+    ctx.add('resembling-keys', res.transitions, ok)
+    ctx.cov['resembling_keys'] = {'states': res.states, 'transitions': res.transitions, 'depth_bound': md, 'alphabet_size': len(oplist),
+                                  'outcomes': {f'{a}:{b}': n for (a, b), n in sorted(res.outcomes.items())}}
+    if not res.violations:
+        ctx.require('resembling-keys states', res.states, 60)
 
 
 def check_iso_property_types(ctx, tpl):
@@ -511,6 +587,7 @@ def run(ctx):
     check_iso_property_types(ctx, tpl)
     check_population(ctx, tpl)
     check_value_alphabet(ctx, tpl)
+    check_keys(ctx, tpl)
     ctx.cov.update(states=res.states, transitions=res.transitions, traces_validated_against_impl=res.transitions,
                    max_depth=res.max_depth, level_sizes=res.level_sizes,
                    outcomes={f'{a}:{b}': n for (a, b), n in sorted(res.outcomes.items())},
